@@ -954,9 +954,9 @@ func TestVerifC22(t *testing.T) {
 		}
 	})
 
-	n := r.N(400, 150000)
+	n := r.N(400, 16000)
 	if os.Getenv("VERIF_C22_RACE") != "" {
-		n = r.N(120, 6000)
+		n = r.N(120, 4800)
 	}
 	r.Cases("sched", n, func(i int, id string, rng *vk.Rand) {
 		h := c22Hazards[rng.Intn(len(c22Hazards))]
